@@ -31,6 +31,9 @@ Wait-history script (``ProcWorld(events=...)``), consumed by ``os.wait()``:
   ["f", status]           a child nobody here forked (fresh foreign pid) is reported
   ["t", j, status]        the pid of the j-th already reaped worker is reported again
                           (pid reused by a foreign child); falls back to "f"
+  ["e"]                   fault: os.wait() fails with ECHILD although workers are in the
+                          caller's table (SIGCHLD ignored / somebody else reaped them all);
+                          every scripted worker is gone afterwards
 
 When the script is exhausted ``os.wait()`` raises ``ChildProcessError(ECHILD)``
 if no scripted child is alive (what the kernel would do) and ``ScriptEnd``
@@ -115,6 +118,8 @@ def event_ok(ev):
         return len(ev) == 2 and status_ok(ev[1])
     if k == "t":
         return len(ev) == 3 and ev[1] >= 0 and status_ok(ev[2])
+    if k == "e":
+        return len(ev) == 1
     return False
 
 
@@ -246,6 +251,13 @@ class ProcWorld:
             ev = self.events[self.ev_pos]
             self.ev_pos += 1
             kind = ev[0]
+            if kind == "e":
+                self.faults["wait_echild_with_workers"] += 1
+                self.reaped.extend(self.live)
+                self.live = []
+                self.trace.append(("wait_error", "ECHILD"))
+                self.ev("wait_error", "ECHILD")
+                raise ChildProcessError(errno.ECHILD, "No child processes")
             if kind in ("x", "s"):
                 if not self.live:
                     self.skipped_events += 1
